@@ -1006,6 +1006,10 @@ fn mention(out: &mut Vec<GSpec>) {
         "X{2}",
         "X{1,3}",
         "(X ~ y){,2} ~ X",
+        // wide choices (library Choice11, generated Choice12) with the mention in the last alternatives
+        "\"bbbb\" | \"bbba\" | \"bbab\" | \"bbaa\" | \"babb\" | \"baba\" | \"baab\" | \"baaa\" | \"bb\" | \"ba\" ~ X | \"b\" ~ X",
+        "\"bbbb\" | \"bbba\" | \"bbab\" | \"bbaa\" | \"babb\" | \"baba\" | \"baab\" | \"baaa\" | \"bb\" | \"ba\" ~ X | \"b\" ~ X | X",
+        "(\"bbb\" | \"bba\" | \"bab\" | \"baa\" | \"bb\" | \"ba\" ~ X | \"b\" ~ X | X)*",
     ] {
         shapes.push(s.to_string());
     }
@@ -1228,6 +1232,30 @@ fn sub(out: &mut Vec<GSpec>) {
         alphabet: "ab ".into(),
         max_len: 5,
         max_len_thorough: 6,
+        all_forms: true,
+        compare: true,
+        ..Default::default()
+    });
+}
+
+/// Case-insensitive literals under all input forms (the matched spelling is part of the value).
+fn sub_ci(out: &mut Vec<GSpec>) {
+    let rules = vec![
+        RuleSpec::new("k", 'S', "^\"ab\""),
+        RuleSpec::new("kn", 'N', "^\"ab\""),
+        RuleSpec::new("k2", 'S', "^\"a\" ~ ^\"b\"?"),
+        RuleSpec::new("k3", 'S', "(^\"a\" | ^\"b\")*"),
+        RuleSpec::new("ka", 'A', "^\"ab\" ~ ^\"a\"?"),
+    ];
+    assert!(valid(&rules));
+    out.push(GSpec {
+        id: "sub_ci".into(),
+        family: "sub".into(),
+        quick: true,
+        rules,
+        alphabet: "abAB".into(),
+        max_len: 4,
+        max_len_thorough: 5,
         all_forms: true,
         compare: true,
         ..Default::default()
@@ -1539,6 +1567,7 @@ pub fn all(out: &mut Vec<GSpec>) {
     }
     if want("sub") {
         sub(out);
+        sub_ci(out);
     }
     if want("unicode") {
         unicode(out);
